@@ -274,6 +274,7 @@ func (m *mu) lock(ctx context.Context) error {
 	case <-m.c.closed:
 		return net.ErrClosed
 	case <-ctx.Done():
+		vhook(9, nil, m, 0, 0)
 		return fmt.Errorf("failed to acquire lock: %w", ctx.Err())
 	case m.ch <- struct{}{}:
 		vhook(1, nil, m, 0, 0)
